@@ -468,6 +468,58 @@ pub fn check_frame(c: &FrameCase, acc: &mut Acc, record: bool) -> Verdict {
     }
 }
 
+// ---- decoded values own their data: nothing in them may point into the input buffer
+
+#[derive(Debug, Clone, Serialize, Deserialize)]
+pub struct AliasCase {
+    pub shape: u8,
+    pub len: usize,
+    pub fill: u8,
+}
+
+/// decodes a value with a byte / string payload of `len` bytes from a heap buffer, then overwrites and frees that
+/// buffer (and lets an allocation of the same size take its place): the value must still be what was written
+pub fn check_alias(c: &AliasCase, acc: &mut Acc, record: bool) -> Verdict {
+    let a = |t: Ty| Arc::new(t);
+    let payload: Vec<u8> = (0..c.len).map(|i| (i as u8).wrapping_mul(c.fill | 1).wrapping_add(c.fill)).collect();
+    let text: String = (0..c.len).map(|i| (b'a' + ((i as u8).wrapping_add(c.fill) % 26)) as char).collect();
+    let (ty, val) = match c.shape % 6 {
+        0 => (Ty::Bytes, Val::Bytes(payload.clone())),
+        1 => (Ty::Vec(a(Ty::U8)), Val::Bytes(payload.clone())),
+        2 => (Ty::Str, Val::Str(text.clone())),
+        3 => (Ty::Vec(a(Ty::Bytes)), Val::Seq(vec![Val::Bytes(payload.clone()), Val::Bytes(vec![c.fill; 3]), Val::Bytes(payload.clone())])),
+        4 => (Ty::Tuple(vec![Ty::U8, Ty::Bytes, Ty::Str]), Val::Tuple(vec![Val::Int(9), Val::Bytes(payload.clone()), Val::Str(text.clone())])),
+        _ => (Ty::Option(a(Ty::Dedup)), Val::some(Val::Str(text.clone()))),
+    };
+    let frag = match ref_encode(&ty, &val) {
+        Ok(f) => f,
+        Err(_) => return Verdict::Skip,
+    };
+    if record {
+        let class = format!("decoded value outlives its input: {}", vmodel::gen::root_class(&ty));
+        acc.case(&class, hash_json(c), c.len >= 64);
+    }
+    let mut input: Vec<u8> = frag.bytes.clone();
+    let n = input.len();
+    let decoded = match crate::run::guarded(|| vcat::decode_only(&ty, &input)) {
+        Ok(Ok(l)) => l,
+        Ok(Err(e)) => return Verdict::Fail(format!("decoding a valid encoding of {} failed: {e:?}", ty.render())),
+        Err(p) => return Verdict::Fail(format!("decoding a valid encoding of {} panicked: {p}", ty.render())),
+    };
+    // the input goes away
+    for b in input.iter_mut() {
+        *b = 0xEE;
+    }
+    drop(input);
+    let squatter = vec![0x11u8; n];
+    let after = decoded.to_val();
+    std::hint::black_box(&squatter);
+    if vmodel::canon(&ty, &after) != vmodel::canon(&ty, &val) {
+        return Verdict::Fail(format!("a {} decoded from a {n}-byte buffer changed after the buffer was overwritten and freed: the value points into the caller's input", ty.render()));
+    }
+    Verdict::Pass
+}
+
 // ---- a client-written BinaryInput (safe code) that hands out short slices at the end of its data
 
 /// reads from `data[..len]`; `read_bytes(n)` with fewer than n bytes left returns what is left (a lenient tail), as a
@@ -596,12 +648,16 @@ pub fn run_c19(cx: &Cx) -> PropResult {
             return;
         }
         let strat = (proptest::collection::vec(any::<u8>(), 0..20), any::<u8>()).prop_map(|(bytes, method)| TailCase { bytes, method });
-        drive(tag_seed(derive_seed(cx.seed, cx.prop, shard as u64, 4), 4), &strat, per_shard / 8, acc, &|c: &TailCase| to_json(&json!({"Tail": c})), &mut |c, a, r| check_tail(c, a, r));
+        if drive(tag_seed(derive_seed(cx.seed, cx.prop, shard as u64, 4), 4), &strat, per_shard / 8, acc, &|c: &TailCase| to_json(&json!({"Tail": c})), &mut |c, a, r| check_tail(c, a, r)) {
+            return;
+        }
+        let strat = (any::<u8>(), prop_oneof![3 => 0usize..200, 2 => prop::sample::select(vec![1023usize, 1024, 1025, 4096, 8192, 65_536, 70_000]), 1 => 200usize..20_000], any::<u8>()).prop_map(|(shape, len, fill)| AliasCase { shape, len, fill });
+        drive(tag_seed(derive_seed(cx.seed, cx.prop, shard as u64, 5), 5), &strat, cx.n(600, 20_000), acc, &|c: &AliasCase| to_json(&json!({"Alias": c})), &mut |c, a, r| check_alias(c, a, r));
     });
     let mut r = PropResult::new(
         acc,
         "exploration",
-        "(1) client programs: witnesses from a template grammar — API path (State::store_ref -> get_ref_by_id, SerializationContext::store_ref_or_object -> get_ref_by_id, store_ref -> DeserializationContext::try_read_ref, read_bytes on SliceInput / OwnedInput / DeserializationContext, a table reference outliving its context; and programs that need DeserializationContext / SerializationContext / State to be Send or Sync) x how the referent dies (inner scope ends, drop, moved into a callee, Vec reallocation / second mutable use) x referent type (String, Vec<u8>, Box<u64>, Rc<String>) — each a crate root with #![forbid(unsafe_code)] compiled by rustc against the freshly built desert rlib; every witness has a control twin that keeps the referent alive and must compile. Oracle: the witness is rejected with a borrow/lifetime error (E0277 for the auto-trait ones); a witness that compiles refutes the property. (2) inputs to the decoding paths written with unsafe code ([T; N] for T in u8, u32, String, Vec<u16>, Option<Box<u64>>, i8, bool, () and N in 0, 1, 3, 16, 17, 33; Vec<u8> / Vec<T>; Bytes; BigInt): valid, count-mismatched, truncated and tampered encodings; every Ok must equal the reference decoder's value (content that does not come from the input is caught without a sanitizer) and must not change when the allocator pre-fills fresh heap memory with 0x53 / 0xAC (uninitialised memory reaching a result is caught without Miri); the thorough tier repeats this corpus under AddressSanitizer (libFuzzer target) and Miri. (2b) compressed blocks whose header overstates / understates the uncompressed length, read under the same allocator pre-fill oracle. (3) reads stay inside the supplied buffer: tampered and raw inputs for run-time struct declarations are decoded — by deserialize and by a tolerant client that keeps reading fields with the same AdtDeserializer after a field failed — inside two different surroundings (canary bytes 0x53 / 0xAC before and after the slice); the outcomes must be identical (a process killed by an out-of-range access is reported by the supervisor); the provided methods of the public BinaryInput trait are called on a client-written input (safe code) whose read_bytes hands out a short slice at its end, under the same two-surroundings oracle, and so are the methods of SliceInput after its public cursor was moved behind the end of the slice. Non-trivial = witness whose control compiles; input whose count / length differs from what the target expects.",
+        "(1) client programs: witnesses from a template grammar — API path (State::store_ref -> get_ref_by_id, SerializationContext::store_ref_or_object -> get_ref_by_id, store_ref -> DeserializationContext::try_read_ref, read_bytes on SliceInput / OwnedInput / DeserializationContext, a table reference outliving its context; and programs that need DeserializationContext / SerializationContext / State to be Send or Sync) x how the referent dies (inner scope ends, drop, moved into a callee, Vec reallocation / second mutable use) x referent type (String, Vec<u8>, Box<u64>, Rc<String>) — each a crate root with #![forbid(unsafe_code)] compiled by rustc against the freshly built desert rlib; every witness has a control twin that keeps the referent alive and must compile. Oracle: the witness is rejected with a borrow/lifetime error (E0277 for the auto-trait ones); a witness that compiles refutes the property. (2) inputs to the decoding paths written with unsafe code ([T; N] for T in u8, u32, String, Vec<u16>, Option<Box<u64>>, i8, bool, () and N in 0, 1, 3, 16, 17, 33; Vec<u8> / Vec<T>; Bytes; BigInt): valid, count-mismatched, truncated and tampered encodings; every Ok must equal the reference decoder's value (content that does not come from the input is caught without a sanitizer) and must not change when the allocator pre-fills fresh heap memory with 0x53 / 0xAC (uninitialised memory reaching a result is caught without Miri); the thorough tier repeats this corpus under AddressSanitizer (libFuzzer target) and Miri. (2b) compressed blocks whose header overstates / understates the uncompressed length, read under the same allocator pre-fill oracle. (3) reads stay inside the supplied buffer: tampered and raw inputs for run-time struct declarations are decoded — by deserialize and by a tolerant client that keeps reading fields with the same AdtDeserializer after a field failed — inside two different surroundings (canary bytes 0x53 / 0xAC before and after the slice); the outcomes must be identical (a process killed by an out-of-range access is reported by the supervisor); the provided methods of the public BinaryInput trait are called on a client-written input (safe code) whose read_bytes hands out a short slice at its end, under the same two-surroundings oracle, and so are the methods of SliceInput after its public cursor was moved behind the end of the slice. (4) decoded values own their data: byte and string payloads of 0 - 70 000 bytes are decoded from a heap buffer that is then overwritten and freed; the value must be unchanged. Non-trivial = witness whose control compiles; input whose count / length differs from what the target expects.",
     );
     r.lines = lines.into_inner().unwrap();
     r.assumptions = vec![
@@ -623,6 +679,10 @@ pub fn replay_c19(case: &Value) -> Verdict {
             Ok(_) => Verdict::Pass,
             Err(e) => Verdict::Fail(e),
         };
+    }
+    if let Some(t) = case.get("Alias") {
+        let c: AliasCase = serde_json::from_value(t.clone()).expect("replay case");
+        return check_alias(&c, &mut Acc::new(), false);
     }
     if let Some(t) = case.get("Tail") {
         let c: TailCase = serde_json::from_value(t.clone()).expect("replay case");
